@@ -120,6 +120,14 @@ struct IdentWorld : World {
 			}
 			case OP_COMPARE: {
 				// compare against own content, a prefix, or a changed byte
+				if (M[t].kind == 2 && (op.c & 4)) {
+					// raw content (n zero bytes, set with a null pointer) is compared the way it was set: equal for n, different for any other length
+					size_t n = M[t].b.size(); int v = (int) (op.c % 3); size_t ask = v == 0 ? n : v == 1 ? n - 1 : n + 1;
+					int rc; { Sut su; rc = mpt_identifier_compare(id[t], 0, (int) ask); }
+					log.ev("COMPARE %d raw %zu against %zu zero bytes -> %d", t, n, ask, rc);
+					if ((rc == 0) != (ask == n)) fail("wrong-compare", "raw content of %zu bytes compared with %zu raw bytes reports %d", n, ask, rc);
+					st.hit("probe:raw_compare"); outcome = rc == 0; break;
+				}
 				Bytes name = M[t].b; int variant = (int) (op.c % 4);
 				if (variant == 1 && !name.empty()) name.pop_back();
 				if (variant == 2 && !name.empty()) name[(size_t) op.c % name.size()] ^= 0x20;
